@@ -1,6 +1,7 @@
 """C12 - see DESIGN.md section 6."""
 from .. import core
 from . import structural, tracesleg
+from .c13 import split_corpus
 
 
 def main(chk: core.Check, replay):
@@ -9,6 +10,9 @@ def main(chk: core.Check, replay):
     structural.run(chk, "C12")
     extra = [(f"gen{i}", t) for i, t in enumerate(getattr(chk, "last_structural_texts", [])[:24])]
     tracesleg.run(chk, 'C12', extra_models=extra)
+    # sub-models (to_ode() / model - component) have missing variables: removal of unused variables must not
+    # change what they compute either (every mismatch that shows with remove_unused=True)
+    split_corpus(chk, "C12", ("numpy",), 80 if chk.tier == "quick" else 800, only=lambda b: bool(b.get("remove_unused")))
 
 
 if __name__ == "__main__":
